@@ -394,6 +394,12 @@ class KindAnalysis:
         if classify_test(fn, n):
             return True
         nd = fn.nodes[n]
+        if nd["k"] == "call" and nd.get("o"):
+            g = fn.unit.functions.get(nd["o"])
+            if g is not None and g.blocks and g is not fn:
+                rets = [g.strip(x["c"][0]) for x in g.nodes if x["k"] == "ret" and x.get("c")]
+                if len(rets) == 1 and _predicate_tests(g, rets[0]):
+                    return True
         if depth < 8 and ((nd["k"] == "bin" and nd["o"] in ("&&", "||", "==", "!=")) or (nd["k"] == "un" and nd["o"] == "!")
                           or nd["k"] == "cond"):
             return any(self._has_test(c, depth + 1) for c in nd.get("c", ()))
